@@ -105,6 +105,13 @@ impl Completions {
             self.entries_head.as_ptr(),
         );
 
+        // A kernel thread takes submissions from the queue without us entering
+        // the kernel, so slots can have become available even if we didn't
+        // enter the kernel above, or did and hit the timeout.
+        if shared.kernel_thread {
+            shared.wake_blocked_futures();
+        }
+
         Ok(())
     }
 
